@@ -14,7 +14,7 @@
 (*   - the destination's final content is what the sink received.          *)
 (* The queue, the buffer and the loop position of Aggregator.tla are not   *)
 (* observable without hooks; what is observable of its actions is:         *)
-(*   Report(g) ~ "Report", Cancel ~ "Cancel", Tick/Spill/FinalFlush ~ the  *)
+(*   Report(g) ~ "Report" / bulk "Reports", Cancel ~ "Cancel", Tick/Spill/FinalFlush ~ the  *)
 (*   "Line" events, Close ~ "SinkClosed", Return ~ "RunEnd".               *)
 (* Events of one run are contiguous (the check groups them by run).        *)
 (***************************************************************************)
